@@ -140,7 +140,7 @@ func runC04Lap(ci interface{}, st *CaseStats) error {
 		}
 		// each tail request is resolved before the next one: a read revision that jumps back shows at once
 		if !WaitCommitted(env.B, env.LastRev, 10*time.Second) {
-			return fmt.Errorf("tail %d: read revision is %d after revision %d was handed out (its slot was used by revision %d one lap earlier)", i, env.B.GetCurrentRevision(), env.LastRev, env.LastRev-ringCapacity)
+			return fmt.Errorf("tail %d: read revision is still %d within 10s after revision %d was handed out (its slot was used by revision %d one lap earlier)", i, env.B.GetCurrentRevision(), env.LastRev, env.LastRev-ringCapacity)
 		}
 		if cur := env.B.GetCurrentRevision(); cur < before {
 			return fmt.Errorf("tail %d: read revision went back to %d (was at least %d)", i, cur, before)
